@@ -1,5 +1,6 @@
 import SqfModel.VM.Sched
 import SqfModel.Lemmas.StackInv
+import SqfModel.Control
 /-!
 # C11 — execution bounds: maximum runtime per run, loop cap in unscheduled code
 
@@ -156,6 +157,41 @@ theorem C11_empty_restart_yields (fuel : Nat) (m m3 : M) (f f3 : Frame) (b : Beh
     frameNext (fuel + 1) m = (m3, .yield) := by
   rw [frameNext]
   simp [htop, hend, hdie, hb, hs, h3, hempty]
+
+/-! ## 5. The stepping actions: every action measures the limit from its own start
+
+`execute(assembly_step | line_step | leave_scope)` begin like a start: requests cleared, the time stamp of the run taken
+anew (`Ctl.begin`). Whatever time passed since an earlier action — a halted script may wait for minutes — the budget of
+the action that executes now counts from its own first clock read. (A seeded change that kept the old time stamp when a
+halted VM was started again is what the `ctl` histories with pauses exhibit; this is the model's side of it.) -/
+
+open Sqf.Ctl in
+theorem C11_action_starts_its_own_budget (m : M) :
+    (begin m).runStart = m.now ∧ (begin m).exitReq = false ∧ (begin m).now = m.now + 1 ∧ (begin m).maxRuntime = m.maxRuntime := by
+  simp [begin, M.readClock]
+
+/-- the deadline test right at the start of an action never fires for a positive limit, however late the action starts -/
+theorem C11_pause_before_an_action_costs_nothing (m : M) (pause : Nat) (hmax : 1 ≤ m.maxRuntime) :
+    (deadline (Sqf.Ctl.begin { m with now := m.now + pause })).1 = none := by
+  simp only [deadline, Sqf.Ctl.begin, M.readClock]
+  have h1 : (m.maxRuntime != 0) = true := by
+    simp; omega
+  simp only [h1, if_true]
+  have h2 : ¬ (m.now + pause + m.maxRuntime < m.now + pause + 1) := by omega
+  simp [h2]
+
+/-- the three stepping actions execute on the machine `begin` prepared -/
+theorem C11_stepping_actions_begin (lineOf : Ctx → Option Nat) (r : Sqf.Ctl.Rt) (c : Ctx) (hc : r.ctx = some c) :
+    Sqf.Ctl.assemblyStep r = Sqf.Ctl.finish r (some (Sqf.Ctl.doOne c (Sqf.Ctl.begin r.m)).1)
+        (Sqf.Ctl.doOne c (Sqf.Ctl.begin r.m)).2.1 (Sqf.Ctl.doOne c (Sqf.Ctl.begin r.m)).2.2 ∧
+    Sqf.Ctl.lineStep lineOf r = Sqf.Ctl.finish r (some (Sqf.Ctl.lineLoop lineOf (lineOf c) 100000 c (Sqf.Ctl.begin r.m)).1)
+        (Sqf.Ctl.lineLoop lineOf (lineOf c) 100000 c (Sqf.Ctl.begin r.m)).2.1 (Sqf.Ctl.lineLoop lineOf (lineOf c) 100000 c (Sqf.Ctl.begin r.m)).2.2 ∧
+    Sqf.Ctl.leaveScope r = Sqf.Ctl.finish r (some (Sqf.Ctl.leaveLoop (c.frames.length - 1) 100000 c (Sqf.Ctl.begin r.m)).1)
+        (Sqf.Ctl.leaveLoop (c.frames.length - 1) 100000 c (Sqf.Ctl.begin r.m)).2.1 (Sqf.Ctl.leaveLoop (c.frames.length - 1) 100000 c (Sqf.Ctl.begin r.m)).2.2 := by
+  refine ⟨?_, ?_, ?_⟩
+  · unfold Sqf.Ctl.assemblyStep; simp [hc]
+  · unfold Sqf.Ctl.lineStep; simp [hc]
+  · unfold Sqf.Ctl.leaveScope; simp [hc]
 
 /-! ## Non-vacuity -/
 
